@@ -2055,6 +2055,7 @@ pub struct SpeechRulesWithContext<'c, 's:'c, 'm:'c> {
     context_stack: ContextStack<'c>,   // current value of (context) variables
     doc: Document<'m>,
     nav_node_id: &'m str,
+    nav_node_found: std::cell::Cell<bool>,  // true once the node with 'nav_node_id' has been matched (and marked/highlighted)
     pub inside_spell: bool,     // hack to allow 'spell' to avoid infinite loop (see 'spell' implementation in tts.rs)
     pub translate_count: usize, // hack to avoid 'translate' infinite loop (see 'spell' implementation in tts.rs)
 }
@@ -2275,6 +2276,7 @@ impl<'c, 's:'c, 'r, 'm:'c> SpeechRulesWithContext<'c, 's,'m> {
             context_stack: ContextStack::new(&speech_rules.pref_manager.borrow()),
             doc,
             nav_node_id,
+            nav_node_found: std::cell::Cell::new(false),
             inside_spell: false,
             translate_count: 0,
         }
@@ -2282,6 +2284,11 @@ impl<'c, 's:'c, 'r, 'm:'c> SpeechRulesWithContext<'c, 's,'m> {
 
     pub fn get_rules(&mut self) -> &SpeechRules {
         return self.speech_rules;
+    }
+
+    /// Was the node with the navigation id met during the pattern match (i.e., is there something highlighted/marked)?
+    pub fn nav_node_found(&self) -> bool {
+        return self.nav_node_found.get();
     }
 
     pub fn get_context(&mut self) -> &mut Context<'c> {
@@ -2387,6 +2394,7 @@ impl<'c, 's:'c, 'r, 'm:'c> SpeechRulesWithContext<'c, 's,'m> {
     fn nav_node_adjust<T:TreeOrString<'c, 'm, T>>(&self, speech: T, mathml: Element<'c>) -> T {
         if let Some(id) = mathml.attribute_value("id") {
             if self.nav_node_id == id {
+                self.nav_node_found.set(true);
                 if self.speech_rules.name == RulesFor::Braille {
                     let highlight_style =  self.speech_rules.pref_manager.borrow().pref_to_string("BrailleNavHighlight");
                     return T::highlight_braille(speech, highlight_style);
